@@ -306,6 +306,10 @@ def run(ctx):
                   'the previous-ID branch only returns the stored response', key=('U2', 'window-prev-effect'),
                   site=ctx.site(preq, c.ast))
 
+    # a datagram that fails verification (it raises out of process_message) must not make the controller drop an IKE_SA that
+    # already existed: a table entry is removed only when its IKE_SA is observed DELETED, or to undo this very event's registration
+    common.deleted_observed(ctx, esc, 'U2')
+
     # ---------------------------------------------------------------- U3
     lookups_checked = check_lookups(ctx, esc)
     ctx.floor('U3 payload lookups classified', lookups_checked, 35)
